@@ -18,7 +18,7 @@
      part file, and rm_part_on_exc is off, or it is gone, or an unlink of it failed;
    - [link_then_unlink_failed tr]: guard of the open finding C05-link-unlink (= Check known5). *)
 From Boltons Require Import Lib.Prelude Model.C04_Model Spec.C04_Spec Check.C04_Check Spec.C05_Spec Check.C05_Check
-     Proofs.C04_Inv Proofs.C05_Basic Proofs.C05_Inv.
+     Proofs.C04_Inv Proofs.C04_Examples Proofs.C05_Basic Proofs.C05_Inv Proofs.C05_Live Proofs.C05_Retry Proofs.C05_Examples.
 Open Scope N_scope.
 
 (* overwrite=False and the destination exists at entry: the caller gets EEXIST before any primitive
@@ -93,3 +93,64 @@ Theorem C05_part_reuse :
     (exists e, o = Exc e) /\ f_dir (w_fs w) (c_part c) = Some j /\ f_ino (w_fs w) j = f_ino s0 j.
 Proof. exact part_reuse_lemma. Qed.
 Print Assumptions C05_part_reuse.
+
+(* "so that a retry can succeed" (progress): a save that meets no failure, whose arguments are valid,
+   that is not refused (overwrite, or no destination) and finds no stale part file in its way
+   completes, for every body and every in-range behaviour of the buffering oracle. *)
+Theorem C05_retry_completes :
+  forall c ops s umask,
+    c_dest c <> c_part c -> c_fdopen_invalid c = false ->
+    (c_overwrite c = true \/ f_dir s (c_dest c) = None) ->
+    (c_overwrite_part c = true \/ f_dir s (c_part c) = None) ->
+    oracle_ok 0 0 ops = true ->
+    exists w', run_save c ops false s umask None [] = (Val tt, w').
+Proof. exact retry_completes_lemma. Qed.
+Print Assumptions C05_retry_completes.
+
+(* ... and in particular right after a failed save: if the failed run (any fault schedule) was allowed
+   to clean up (rm_part_on_exc, no unlink of the part file failed, outside the open finding's guard)
+   and the configuration is not one that is refused anyway, the immediate retry in the directory it
+   left behind completes and publishes the complete new content, durably, leaving no part file. *)
+Theorem C05_retry_after_failure :
+  forall c ops raises s0 umask sched e w ops' umask',
+    c_dest c <> c_part c -> same_dir (c_part c) = true -> wf s0 ->
+    run_save c ops raises s0 umask None sched = (Exc e, w) ->
+    c_rm_part_on_exc c = true ->
+    unlink_failed (c_part c) (w_trace w) = false ->
+    link_then_unlink_failed (w_trace w) = false ->
+    c_fdopen_invalid c = false ->
+    OpenFact c s0 ->
+    (c_overwrite c = true \/ (f_dir s0 (c_dest c) = None /\ appear_contents sched = [])) ->
+    oracle_ok 0 0 ops' = true ->
+    exists w', run_save c ops' false (w_fs w) umask' None [] = (Val tt, w') /\
+               content_kill (w_fs w') (c_dest c) = Some (new_content ops') /\
+               content_power (w_fs w') (c_dest c) = Some (new_content ops') /\
+               f_dir (w_fs w') (c_part c) = None.
+Proof. exact retry_after_failure_lemma. Qed.
+Print Assumptions C05_retry_after_failure.
+
+(* the hypotheses are inhabited by non-trivial runs *)
+Example C05_ex_fault_flush :
+  let r := run_save ex_cfg ex_body false ex_fs 18 None [(7%nat, AFault 28%nat)] in
+  fst r = Exc (OSErr 28%nat) /\
+  content_kill (w_fs (snd r)) 0%nat = Some ex_old /\ mode_of (w_fs (snd r)) 0%nat = Some 416 /\
+  f_dir (w_fs (snd r)) 1%nat = None /\
+  unlink_failed 1%nat (w_trace (snd r)) = false /\ link_then_unlink_failed (w_trace (snd r)) = false /\
+  length (w_trace (snd r)) = 10%nat /\ oracle_ok 0 0 ex_body = true.
+Proof. exact ex5_fault_flush. Qed.
+Example C05_ex_stale :
+  let s0 := fs_of_list [(1%nat, ([9; 9], 384)); (0%nat, (ex_old, 416))] in
+  let r := run_save ex_cfg ex_body false s0 18 None [] in
+  fst r = Exc (OSErr EEXIST) /\ f_dir (w_fs (snd r)) 1%nat = f_dir s0 1%nat /\
+  content_kill (w_fs (snd r)) 1%nat = Some [9; 9] /\ content_kill (w_fs (snd r)) 0%nat = Some ex_old.
+Proof. exact ex5_stale. Qed.
+Example C05_ex_double :
+  let r := run_save ex_cfg ex_body false ex_fs 18 None [(8%nat, AFault 5%nat); (10%nat, AFault 13%nat)] in
+  fst r = Exc (OSErr 5%nat) /\ unlink_failed 1%nat (w_trace (snd r)) = true /\
+  content_kill (w_fs (snd r)) 1%nat = Some [104; 105; 33; 10] /\ content_kill (w_fs (snd r)) 0%nat = Some ex_old.
+Proof. exact ex5_double. Qed.
+Example C05_ex_perms :
+  mode_of (w_fs (snd (run_save ex_cfg ex_body false (fs_of_list []) 63 None []))) 0%nat = Some 384 /\
+  mode_of (w_fs (snd (run_save ex_cfg_noclobber ex_body false (fs_of_list []) 18 None []))) 0%nat = Some 384 /\
+  mode_of (w_fs (snd (run_save ex_cfg ex_body false ex_fs 63 None []))) 0%nat = Some 416.
+Proof. exact ex5_perms. Qed.
